@@ -47,7 +47,8 @@ REG['C12'] = dict(
     quick=10000, thorough=250000,
     vacuity=['compared_instants', 'pairs_split', 'pairs_rerun',
              'unit_switch_splits', 'rerun_same_solver', 'rerun_new_solver',
-             'segment_ended_held', 'epoch_ended_held'],
+             'segment_ended_held', 'epoch_ended_held',
+             'rerun_pwm_left_to_reset'],
     rule='differential simulation: (split) the scenario segments vs one run '
     'of the total length, (rerun) the epoch after reset + re-applied initial '
     'conditions vs the first epoch, same or new Solver; distinct = (chain '
